@@ -167,16 +167,24 @@ Qed.
 
 (** After a number: [hsp preposition] fails before a character that starts no preposition. *)
 Lemma no_prep_alt (v : num) (s1 : st) (w : str) c (r : str) :
-  forallb is_hsp w = true -> is_hsp c = false -> inert c = true ->
+  forallb is_hsp w = true -> is_hsp c = false -> Units.preposition (c :: r) = None ->
   match sc_hsp (w ++ c :: r) with
   | Some (w1, r1) => match Units.preposition r1 with
                      | Some (p, r'0) => Some (PropVal v false (w1 ++ p), adv s1 (w1 ++ p) r'0)
                      | None => None end
   | None => None end = None.
 Proof.
-  intros Hw Hch Hci. destruct w as [|h w'].
+  intros Hw Hch Hp. destruct w as [|h w'].
   - cbn [app]. rewrite (sc_hsp_none c r Hch). reflexivity.
-  - rewrite (sc_hsp_run (h :: w') (c :: r) ltac:(discriminate) Hw Hch), (preposition_inert c r Hci). reflexivity.
+  - rewrite (sc_hsp_run (h :: w') (c :: r) ltac:(discriminate) Hw Hch), Hp. reflexivity.
+Qed.
+
+Lemma opt_hsp_prep_none' (w : str) c (r : str) : forallb is_hsp w = true -> is_hsp c = false ->
+  Units.preposition (c :: r) = None -> opt_hsp_prep (w ++ c :: r) = ([], w ++ c :: r).
+Proof.
+  intros Hw Hh Hp. unfold opt_hsp_prep. destruct w as [|h w'].
+  - cbn [app]. rewrite (sc_hsp_none c r Hh). reflexivity.
+  - rewrite (sc_hsp_run (h :: w') (c :: r) ltac:(discriminate) Hw Hh), Hp. reflexivity.
 Qed.
 
 (** ** Prepositions and units (reusing the C12 lemmas) *)
@@ -227,17 +235,46 @@ Qed.
 Lemma the_fails_at_opener c (r : str) : opener c -> Units.match_ci_lit [116; 104; 101] (c :: r) = None.
 Proof. intro Hc. apply match_ci_lit_head. destruct Hc as [->|[->| ->]]; vm_compute; reflexivity. Qed.
 
-Lemma pword_prep pw (w : str) c (r : str) : pword_ok pw = true -> forallb is_hsp w = true -> opener c ->
+Lemma of_classes_word : forallb (fun a => forallb Units.is_word (Units.ci_class a)) [111; 102] = true.
+Proof. vm_compute. reflexivity. Qed.
+
+(** What the amount scanners need to know about the text [w ++ c :: r] that follows an amount. *)
+Record fol (w : str) (c : N) (r : str) : Prop := mkFol {
+  f_hsp : is_hsp c = false;
+  f_dig : is_digit c = false;
+  f_46 : c <> 46; f_47 : c <> 47; f_37 : c <> 37; f_42 : c <> 42;
+  f_prep : Units.preposition (c :: r) = None;
+  f_the : with_boundary (Units.match_ci_lit [116; 104; 101] (c :: r)) = None;
+  f_unit : Units.known_unit (c :: r) = None }.
+
+Lemma pword_prep pw (w : str) c (r : str) : pword_ok pw = true -> forallb is_hsp w = true -> fol w c r ->
+  UnitsRef.boundary_after (w ++ c :: r) ->
   Units.preposition (pword_str pw ++ w ++ c :: r) = Some (pword_str pw, w ++ c :: r).
 Proof.
-  intros Hok Hw Hc. pose proof (boundary_hsp_opener w c r Hw Hc) as Hb.
+  intros Hok Hw F Hb.
   destruct pw as [o | o w2 th]; cbn [pword_ok pword_str] in *.
-  - apply (UnitsTail.preposition_of o (w ++ c :: r) (ci_wordb_word _ _ Hok) Hb).
-    intros w0 r2 Hh. destruct w as [|h w'].
-    + cbn [app] in Hh. unfold Units.hsp in Hh. cbn [Units.span] in Hh.
-      change (Units.is_hsp c) with (is_hsp c) in Hh. rewrite (opener_not_hsp c Hc) in Hh. discriminate Hh.
-    + pose proof (sc_hsp_run (h :: w') (c :: r) ltac:(discriminate) Hw (opener_not_hsp c Hc)) as E.
-      unfold sc_hsp in E. rewrite E in Hh. inversion Hh; subst. exact (the_fails_at_opener c r Hc).
+  - pose proof (ci_wordb_word _ _ Hok) as Wo. unfold Units.preposition.
+    rewrite (UnitsTail.match_ci_lit_complete _ _ Wo _).
+    assert (Hthe : match Units.hsp (w ++ c :: r) with
+                   | Some (w0, r2) =>
+                       match Units.match_ci_lit [116; 104; 101] r2 with
+                       | Some (m2, r3) => if Units.word_boundary (Units.last_opt m2) (hd_error r3) then Some (o ++ w0 ++ m2, r3) else None
+                       | None => None
+                       end
+                   | None => None
+                   end = None).
+    { destruct w as [|h w'].
+      - cbn [app]. pose proof (sc_hsp_none c r (f_hsp _ _ _ F)) as E. unfold sc_hsp in E. rewrite E. reflexivity.
+      - pose proof (sc_hsp_run (h :: w') (c :: r) ltac:(discriminate) Hw (f_hsp _ _ _ F)) as E. unfold sc_hsp in E. rewrite E.
+        pose proof (f_the _ _ _ F) as T. unfold with_boundary, word_end_ok in T.
+        destruct (Units.match_ci_lit [116; 104; 101] (c :: r)) as [[m2 r3]|]; [|reflexivity].
+        destruct (Units.word_boundary (Units.last_opt m2) (hd_error r3)); [discriminate T | reflexivity]. }
+    rewrite Hthe.
+    destruct (UnitsTail.ci_word_last_word _ _ Wo ltac:(discriminate) of_classes_word) as [c0 [Ec Wc]].
+    assert (Hbd : Units.word_boundary (Units.last_opt o) (hd_error (w ++ c :: r)) = true).
+    { rewrite Ec. unfold Units.word_boundary, Units.opt_word. rewrite Wc. destruct (w ++ c :: r) as [|c' t']; [reflexivity|].
+      cbn [hd_error]. cbn [UnitsRef.boundary_after] in Hb. rewrite Hb. reflexivity. }
+    rewrite Hbd. reflexivity.
   - apply andb_true_iff in Hok as [Hok Hth]. apply andb_true_iff in Hok as [Hok Hne]. apply andb_true_iff in Hok as [Ho Hw2].
     assert (Hn2 : w2 <> []) by (destruct w2; [discriminate Hne | discriminate]).
     destruct (UnitsTail.preposition_of_the [32] o w2 th (w ++ c :: r) eq_refl ltac:(discriminate) (ci_wordb_word _ _ Ho) Hw2 Hn2
@@ -245,16 +282,23 @@ Proof.
     repeat rewrite <- app_assoc. exact P.
 Qed.
 
+Lemma boundary_hsp_then (w : str) c (r : str) : forallb is_hsp w = true -> w <> [] -> UnitsRef.boundary_after (w ++ c :: r).
+Proof.
+  intros Hw Hn. destruct w as [|h w']; [contradiction|]. cbn [app UnitsRef.boundary_after].
+  cbn [forallb] in Hw. apply andb_true_iff in Hw as [Hh _]. exact (not_word_hsp h Hh).
+Qed.
+
 (** [(hsp preposition)?] on a printed optional preposition. *)
-Lemma oprep_roundtrip p (w : str) c (r : str) : oprep_ok p = true -> forallb is_hsp w = true -> opener c ->
+Lemma oprep_roundtrip p (w : str) c (r : str) : oprep_ok p = true -> forallb is_hsp w = true -> fol w c r ->
+  (p <> None -> UnitsRef.boundary_after (w ++ c :: r)) ->
   opt_hsp_prep (oprep_str p ++ w ++ c :: r) = (oprep_str p, w ++ c :: r).
 Proof.
-  intros Hok Hw Hc. destruct p as [[w' pw]|]; cbn [oprep_ok oprep_str] in *.
+  intros Hok Hw F Hb. destruct p as [[w' pw]|]; cbn [oprep_ok oprep_str] in *.
   - apply andb_true_iff in Hok as [Hok Hpw]. apply andb_true_iff in Hok as [Hw' Hne].
     assert (Hn : w' <> []) by (destruct w'; [discriminate Hne | discriminate]).
     unfold opt_hsp_prep. repeat rewrite <- app_assoc.
-    rewrite (sc_hsp_run w' _ Hn Hw' (pword_head pw _ Hpw)), (pword_prep pw w c r Hpw Hw Hc). reflexivity.
-  - cbn [app]. exact (opt_hsp_prep_none w c r Hw (opener_not_hsp c Hc) (opener_inert c Hc)).
+    rewrite (sc_hsp_run w' _ Hn Hw' (pword_head pw _ Hpw)), (pword_prep pw w c r Hpw Hw F (Hb ltac:(discriminate))). reflexivity.
+  - cbn [app]. exact (opt_hsp_prep_none' w c r Hw (f_hsp _ _ _ F) (f_prep _ _ _ F)).
 Qed.
 
 Lemma unit_ok_spelled n v : unit_ok n v = true -> In n Units.all_names /\ UnitsRef.spelled n v.
@@ -286,17 +330,18 @@ Qed.
 
 (** The unit, the spacing before it and the preposition after it are recovered. *)
 Lemma implicit_tail_unit sp n v p (w : str) c (r : str) :
-  forallb is_hsp sp = true -> unit_ok n v = true -> oprep_ok p = true -> forallb is_hsp w = true -> opener c ->
+  forallb is_hsp sp = true -> unit_ok n v = true -> oprep_ok p = true -> forallb is_hsp w = true -> fol w c r ->
+  UnitsRef.boundary_after (w ++ c :: r) ->
   Units.implicit_tail (sp ++ v ++ oprep_str p ++ w ++ c :: r) = Some (sp, v, oprep_str p, w ++ c :: r).
 Proof.
-  intros Hsp Hu Hp Hw Hc. destruct (unit_ok_spelled n v Hu) as [Hn Hs].
+  intros Hsp Hu Hp Hw F Hbw. destruct (unit_ok_spelled n v Hu) as [Hn Hs].
   destruct (unit_ok_head n v Hu) as [c0 [t0 [Ev [_ [_ [_ [Hh _]]]]]]].
   assert (Hb : UnitsRef.boundary_after (oprep_str p ++ w ++ c :: r)).
   { destruct p as [[w' pw]|]; cbn [oprep_str].
     - cbn [oprep_ok] in Hp. apply andb_true_iff in Hp as [Hp _]. apply andb_true_iff in Hp as [Hw' Hne].
       destruct w' as [|h w'']; [discriminate Hne|]. cbn [app UnitsRef.boundary_after]. cbn [hsp_run forallb] in Hw'.
       apply andb_true_iff in Hw' as [Hh' _]. exact (not_word_hsp h Hh').
-    - cbn [app]. exact (boundary_hsp_opener w c r Hw Hc). }
+    - cbn [app]. exact Hbw. }
   pose proof (UnitsTable.every_name_recognised n v _ Hn Hs Hb) as Hk.
   unfold Units.implicit_tail.
   assert (Hstop : stops is_hsp (v ++ oprep_str p ++ w ++ c :: r)) by (rewrite Ev; exact Hh).
@@ -310,7 +355,7 @@ Proof.
                       end
                   | None => Some (sp, v, [], oprep_str p ++ w ++ c :: r)
                   end = Some (sp, v, oprep_str p, w ++ c :: r)).
-  { pose proof (oprep_roundtrip p w c r Hp Hw Hc) as Ho. unfold opt_hsp_prep, sc_hsp in Ho.
+  { pose proof (oprep_roundtrip p w c r Hp Hw F (fun _ => Hbw)) as Ho. unfold opt_hsp_prep, sc_hsp in Ho.
     destruct (Units.hsp (oprep_str p ++ w ++ c :: r)) as [[w1 r2]|] eqn:Eh.
     - destruct (Units.preposition r2) as [[p1 r3]|] eqn:Ep; inversion Ho as [[Ha Hb']].
       + reflexivity.
@@ -443,36 +488,125 @@ Proof. intro H. apply orb_true_iff in H as [H|H]; apply N.eqb_eq in H; subst; re
 Lemma amt_ok_parts am : amt_ok am = true -> lead_ok am = true /\ tail_text_ok (amt_tail am) = true.
 Proof. unfold amt_ok. intro H. apply andb_true_iff in H as [H _]. apply andb_true_iff in H. exact H. Qed.
 
-Lemma oprep_boundary p (w : str) c (r : str) : oprep_ok p = true -> forallb is_hsp w = true -> opener c ->
-  UnitsRef.boundary_after (oprep_str p ++ w ++ c :: r).
+Lemma oprep_boundary p (w : str) c (r : str) : oprep_ok p = true -> forallb is_hsp w = true ->
+  UnitsRef.boundary_after (w ++ c :: r) -> UnitsRef.boundary_after (oprep_str p ++ w ++ c :: r).
 Proof.
-  intros Hp Hw Hc. destruct p as [[w' pw]|]; cbn [oprep_str].
+  intros Hp Hw Hb. destruct p as [[w' pw]|]; cbn [oprep_str].
   - cbn [oprep_ok] in Hp. apply andb_true_iff in Hp as [Hp _]. apply andb_true_iff in Hp as [Hw' Hne].
     destruct w' as [|h w'']; [discriminate Hne|]. cbn [app UnitsRef.boundary_after]. cbn [hsp_run forallb] in Hw'.
     apply andb_true_iff in Hw' as [Hh' _]. exact (not_word_hsp h Hh').
-  - cbn [app]. exact (boundary_hsp_opener w c r Hw Hc).
+  - cbn [app]. exact Hb.
+Qed.
+
+Lemma opener_fol (w : str) c (r : str) : opener c -> fol w c r.
+Proof.
+  intro Hc. constructor.
+  - exact (opener_not_hsp c Hc).
+  - exact (opener_not_digit c Hc).
+  - destruct Hc as [->|[->| ->]]; discriminate.
+  - destruct Hc as [->|[->| ->]]; discriminate.
+  - destruct Hc as [->|[->| ->]]; discriminate.
+  - destruct Hc as [->|[->| ->]]; discriminate.
+  - exact (preposition_inert c r (opener_inert c Hc)).
+  - rewrite (the_fails_at_opener c r Hc). reflexivity.
+  - exact (known_unit_opener c r Hc).
+Qed.
+
+Lemma implicit_tail_none (w : str) c (r : str) : forallb is_hsp w = true -> is_hsp c = false ->
+  Units.known_unit (c :: r) = None -> Units.implicit_tail (w ++ c :: r) = None.
+Proof.
+  intros Hw Hc Hk. unfold Units.implicit_tail, Units.hsp.
+  change (Units.span Units.is_hsp) with (span is_hsp).
+  rewrite (ParserLex.span_app is_hsp w (c :: r) Hw Hc).
+  destruct w as [|h w']; cbn [app]; rewrite Hk; reflexivity.
+Qed.
+
+Lemma hsp_raw_ok_b (w : str) : forallb is_hsp w = true -> forallb raw_ok_b w = true.
+Proof.
+  apply forallb_impl. intros x H. unfold is_hsp, Units.is_hsp in H.
+  apply orb_true_iff in H as [H|H]; apply N.eqb_eq in H; subst; reflexivity.
+Qed.
+
+Definition unit_okb (u : option (str * name)) : bool :=
+  match u with
+  | Some (sp, un) => hsp_run sp && name_ok un && static_name un && forallb raw_ok_b (print_name un)
+  | None => true
+  end.
+
+Lemma unit_text_raw u (w1 : str) : unit_okb u = true -> hsp_run w1 = true -> forallb raw_ok_b (unit_text u ++ w1) = true.
+Proof.
+  intros Hu Hw1. rewrite forallb_app. apply andb_true_iff. split; [|exact (hsp_raw_ok_b w1 Hw1)].
+  destruct u as [[sp un]|]; [|reflexivity]. cbn [unit_okb unit_text] in *.
+  apply andb_true_iff in Hu as [Hu Hx]. apply andb_true_iff in Hu as [Hu _]. apply andb_true_iff in Hu as [Hsp _].
+  rewrite forallb_app. apply andb_true_iff. split; [exact (hsp_raw_ok_b sp Hsp) | exact Hx].
+Qed.
+
+Lemma explicit_print t w0 u w1 :
+  hsp_run w0 = true -> hsp_run w1 = true -> unit_okb u = true ->
+  print_bparts (explicit_bparts t w0 u w1) = w0 ++ ntext_str t ++ unit_text u ++ w1.
+Proof.
+  intros Hw0 Hw1 Hu. pose proof (unit_text_raw u w1 Hu Hw1) as HT.
+  unfold explicit_bparts, print_bparts. rewrite flat_map_app. cbn [flat_map print_bpart].
+  assert (E0 : flat_map print_bpart (match w0 with [] => [] | _ :: _ => [BStr w0 []] end) = w0).
+  { destruct w0 as [|h w0']; [reflexivity|]. cbn [flat_map print_bpart]. rewrite app_nil_r.
+    exact (print_chars_raw raw_ok_b _ (hsp_raw_ok_b _ Hw0)). }
+  rewrite E0. f_equal. f_equal.
+  destruct (unit_text u ++ w1) as [|h T'] eqn:ET; [reflexivity|]. cbn [flat_map print_bpart]. rewrite app_nil_r.
+  exact (print_chars_raw raw_ok_b _ HT).
+Qed.
+
+(** What follows the number of an explicit quantity lets the number end there. *)
+Lemma explicit_follow t w0 u w1 (X : str) :
+  hsp_run w1 = true -> unit_okb u = true -> bparts_ok (explicit_bparts t w0 u w1) = true ->
+  num_follow t (unit_text u ++ w1 ++ 125 :: X).
+Proof.
+  intros Hw1 Hu Hbp. pose proof (unit_text_raw u w1 Hu Hw1) as HT.
+  assert (Hb : bparts_ok (BNum t :: match unit_text u ++ w1 with [] => [] | T => [BStr T []] end) = true).
+  { unfold explicit_bparts in Hbp. destruct w0 as [|h w0']; cbn [app] in Hbp; [exact Hbp|].
+    cbn [bparts_ok] in Hbp. apply andb_true_iff in Hbp as [_ Hbp]. exact Hbp. }
+  cbn [bparts_ok] in Hb. apply andb_true_iff in Hb as [Hb _]. apply andb_true_iff in Hb as [_ Hb].
+  assert (E : print_bparts (match unit_text u ++ w1 with [] => [] | T => [BStr T []] end) = unit_text u ++ w1).
+  { destruct (unit_text u ++ w1) as [|h T'] eqn:ET; [reflexivity|]. unfold print_bparts. cbn [flat_map print_bpart]. rewrite app_nil_r.
+    exact (print_chars_raw raw_ok_b _ HT). }
+  rewrite E in Hb. rewrite (num_followb_ext t (unit_text u ++ w1) 125 X eq_refl) in Hb.
+  rewrite <- app_assoc in Hb. exact (num_followb_follow _ _ Hb).
+Qed.
+
+Lemma explicit_unit_cost t w0 sp un w1 p :
+  name_ok un = true -> (name_cost un <= amt_cost (AmExplicit t w0 (Some (sp, un)) w1 p))%nat.
+Proof.
+  intro Hun. pose proof (name_cost_len un Hun) as Hl. cbn [amt_cost seg_cost]. unfold explicit_bparts.
+  rewrite fold_right_app. cbn [unit_text].
+  generalize dependent (name_cost un). intros n Hl.
+  assert (Hz : forall (l : list bpart) (a : nat), (a <= fold_right (fun (b : bpart) (n : nat) => (match b with BStr x _ => List.length x | BNum _ => 1 end + n)%nat) a l)%nat).
+  { induction l as [|b0 l IHl]; intro a; cbn [fold_right]; [lia | specialize (IHl a); lia]. }
+  match goal with |- (_ <= S (S (fold_right ?f ?a ?l)))%nat => pose proof (Hz l a) as Hza; set (A := a) in *; set (Z := fold_right f A l) in * end.
+  assert (HA : (List.length (print_name un) <= A)%nat).
+  { subst A. destruct ((sp ++ print_name un) ++ w1) as [|h T'] eqn:ET.
+    - apply (f_equal (@List.length N)) in ET. rewrite !app_length in ET. cbn [List.length] in ET. lia.
+    - rewrite <- ET. cbn [fold_right]. rewrite !app_length. lia. }
+  clearbody Z A. lia.
 Qed.
 
 Lemma amount_roundtrip am (w : str) c (r : str) o b fuel :
-  amt_ok am = true -> forallb is_hsp w = true -> opener c -> (2 <= fuel)%nat ->
+  amt_ok am = true -> forallb is_hsp w = true -> fol w c r ->
+  (needs_bnd am = true -> UnitsRef.boundary_after (w ++ c :: r)) -> (2 <= fuel)%nat -> (amt_cost am <= fuel)%nat ->
   p_amount fuel (mkSt (print_amt am ++ w ++ c :: r) o b) =
   Got (amt_val am) (mkSt (w ++ c :: r) (o + len (print_amt am)) b).
 Proof.
-  intros Hok Hw Hc Hfuel.
-  pose proof (opener_not_hsp c Hc) as Hch. pose proof (opener_not_digit c Hc) as Hcd.
-  pose proof (opener_inert c Hc) as Hci.
-  assert (Hc46 : c <> 46) by (destruct Hc as [->|[->| ->]]; discriminate).
-  assert (Hc47 : c <> 47) by (destruct Hc as [->|[->| ->]]; discriminate).
-  assert (Hc37 : c <> 37) by (destruct Hc as [->|[->| ->]]; discriminate).
-  assert (Hc42 : c <> 42) by (destruct Hc as [->|[->| ->]]; discriminate).
+  intros Hok Hw Hc Hbnd Hfuel Hcost.
+  pose proof (f_hsp _ _ _ Hc) as Hch. pose proof (f_dig _ _ _ Hc) as Hcd.
+  pose proof (f_prep _ _ _ Hc) as Hci.
+  pose proof (f_46 _ _ _ Hc) as Hc46. pose proof (f_47 _ _ _ Hc) as Hc47.
+  pose proof (f_37 _ _ _ Hc) as Hc37. pose proof (f_42 _ _ _ Hc) as Hc42.
   destruct (amt_ok_parts am Hok) as [Hnum _]. unfold amt_ok in Hok. apply andb_true_iff in Hok as [_ Hok].
   unfold print_amt.
   destruct am as [rw p | t | t sp n v p | t w0 pw | t w0 p | t w0 | t w0 u w1 p]; cbn [amt_lead lead_ok amt_num amt_tail amt_val] in *.
   - (* remainder word [preposition] *)
     apply andb_true_iff in Hnum as [Hrw _].
     unfold p_amount, p_proportion. cbn [rest]. repeat rewrite <- app_assoc.
-    rewrite (sc_remainder_word rw _ Hrw (oprep_boundary p w c r Hok Hw Hc)). unfold adv_pair, adv. cbn [rest off bad].
-    rewrite (oprep_roundtrip p w c r Hok Hw Hc). cbn [fst snd].
+    rewrite (sc_remainder_word rw _ Hrw (oprep_boundary p w c r Hok Hw (Hbnd eq_refl))). unfold adv_pair, adv. cbn [rest off bad].
+    rewrite (oprep_roundtrip p w c r Hok Hw Hc (fun _ => Hbnd eq_refl)). cbn [fst snd].
     f_equal. f_equal. repeat rewrite len_app. lia.
   - (* unit-less quantity *)
     rewrite app_nil_r.
@@ -484,7 +618,7 @@ Proof.
     rewrite (eat_miss 37 c r _ b Hc37), (eat_miss 42 c r _ b Hc42).
     unfold p_explicit. rewrite (eat_brace_number t _ o b Hnum).
     unfold p_implicit. rewrite (p_number_text t _ o b Hnum Hf). cbn [rest].
-    rewrite (implicit_tail_opener w c r Hw Hc). reflexivity.
+    rewrite (implicit_tail_none w c r Hw Hch (f_unit _ _ _ Hc)). reflexivity.
   - (* number unit [preposition] *)
     apply andb_true_iff in Hok as [Hok Hp]. apply andb_true_iff in Hok as [Hsp Hu].
     destruct (unit_ok_head n v Hu) as [c0 [t0 [Ev [Hd0 [H46 [H47 [Hh0 [H37 H42]]]]]]]].
@@ -510,7 +644,7 @@ Proof.
     unfold p_explicit. rewrite (eat_brace_number t _ o b Hnum).
     unfold p_implicit. change (c0 :: t0 ++ oprep_str p ++ w ++ c :: r) with ((c0 :: t0) ++ oprep_str p ++ w ++ c :: r).
     rewrite <- Ev. rewrite (p_number_text t _ o b Hnum Hf). cbn [rest].
-    rewrite (implicit_tail_unit sp n v p w c r Hsp Hu Hp Hw Hc). unfold advn. cbn [off bad].
+    rewrite (implicit_tail_unit sp n v p w c r Hsp Hu Hp Hw Hc (Hbnd eq_refl)). unfold advn. cbn [off bad].
     f_equal. f_equal. rewrite ?Ev. repeat (rewrite len_app || rewrite len_cons). lia.
   - (* number hsp preposition *)
     apply andb_true_iff in Hok as [Hok Hpw]. apply andb_true_iff in Hok as [Hw0 Hne].
@@ -540,7 +674,7 @@ Proof.
           exact (hsp_not_digit h Hh). }
     unfold p_amount, p_proportion. cbn [rest]. repeat rewrite <- app_assoc.
     rewrite (sc_remainder_number t _ Hnum), (p_number_text t _ o b Hnum Hf). cbn [rest].
-    rewrite (sc_hsp_run w0 _ Hn0 Hw0 Hph), (pword_prep pw w c r Hpw Hw Hc).
+    rewrite (sc_hsp_run w0 _ Hn0 Hw0 Hph), (pword_prep pw w c r Hpw Hw Hc (Hbnd eq_refl)).
     unfold adv. cbn [off bad]. f_equal. f_equal. repeat rewrite len_app. lia.
   - (* number "%" [preposition] *)
     apply andb_true_iff in Hok as [Hok Hdiv]. apply andb_true_iff in Hok as [Hw0 Hp].
@@ -551,7 +685,7 @@ Proof.
     rewrite (no_prep_alt _ _ w0 37 _ Hw0 eq_refl eq_refl).
     rewrite (skip_hsp_run w0 (37 :: _) _ b Hw0 eq_refl).
     rewrite (eat_hit 37 _ _ b). cbn [rest].
-    rewrite (oprep_roundtrip p w c r Hp Hw Hc). unfold adv_pair, adv. cbn [fst snd off bad].
+    rewrite (oprep_roundtrip p w c r Hp Hw Hc (fun Hne => Hbnd ltac:(destruct p; [reflexivity | contradiction]))). unfold adv_pair, adv. cbn [fst snd off bad].
     unfold percent_of. destruct (ndiv (ntext_val t) (NInt 100)) as [q| |]; try discriminate.
     rewrite with_bad_none.
     f_equal. f_equal. repeat (rewrite len_app || rewrite len_cons). lia.
@@ -565,7 +699,7 @@ Proof.
     rewrite (eat_miss 37 42 _ _ b ltac:(discriminate)), (eat_hit 42 _ _ b).
     f_equal. f_equal. repeat (rewrite len_app || rewrite len_cons || rewrite len_nil). lia.
   - (* explicit quantity *)
-    apply andb_true_iff in Hnum as [Hnum _]. apply andb_true_iff in Hnum as [Hnum Hu].
+    apply andb_true_iff in Hnum as [Hnum Hbp]. apply andb_true_iff in Hnum as [Hnum Hu].
     apply andb_true_iff in Hnum as [Hnum Hw1]. apply andb_true_iff in Hnum as [Ht Hw0].
     destruct (ntext_head t Ht) as [d [r' [Eh Hd]]].
     unfold p_amount, p_proportion. cbn [rest]. norm_app.
@@ -573,23 +707,28 @@ Proof.
     unfold p_explicit. rewrite eat_hit.
     assert (Hs0 : forall X : str, stops is_hsp (ntext_str t ++ X)) by (intro X; rewrite Eh; exact (digit_not_hsp d Hd)).
     rewrite (skip_hsp_run w0 _ _ b Hw0 (Hs0 _)).
-    destruct u as [[[sp q] x]|]; cbn [unit_text] in *.
-    + apply andb_true_iff in Hu as [Hu Hx]. apply andb_true_iff in Hu as [Hsp Hq].
-      destruct (quote_facts q Hq) as [Hq2 [Hqh [Hqd [Hq46 Hq47]]]].
-      assert (Hxq : forallb (raw_ok_q q) x = true).
-      { apply (forallb_impl (unit_char q)); [|exact Hx]. intros y Hy. unfold unit_char in Hy. apply andb_true_iff in Hy. tauto. }
-      (norm_app; cbn [app]).
-      rewrite (p_number_text t _ _ b Ht (num_follow_hsp_then t sp q _ Hsp Hqh Hqd Hq46 Hq47)).
-      rewrite (skip_hsp_run sp (q :: _) _ b Hsp Hqh).
-      rewrite (p_static_quoted q x _ fuel _ b Hq2 Hxq (name_followb_hsp_then w1 125 _ Hw1 eq_refl eq_refl) Hfuel).
+    pose proof (explicit_follow t w0 u w1 (oprep_str p ++ w ++ c :: r) Hw1 Hu Hbp) as Hnf.
+    destruct u as [[sp un]|]; cbn [unit_text] in *.
+    + pose proof (explicit_unit_cost t w0 sp un w1 p) as Huc.
+      apply andb_true_iff in Hu as [Hu Hx]. apply andb_true_iff in Hu as [Hu Hst]. apply andb_true_iff in Hu as [Hsp Hun].
+      specialize (Huc Hun).
+      assert (Hhd : forall X : str, stops is_hsp (print_name un ++ X)).
+      { intro X. destruct un as [f1 m1]. unfold name_ok in Hun. cbn [nm_first nm_more] in Hun.
+        apply andb_true_iff in Hun as [Hun _]. apply andb_true_iff in Hun as [Hf1 _].
+        destruct (print_seg_head f1 Hf1) as [c1 [r1 [E1 [Hc1 _]]]]. unfold print_name. cbn [nm_first nm_more].
+        rewrite E1. cbn [app stops]. exact (seg_head_not_hsp c1 Hc1). }
+      (norm_app; cbn [app]). repeat rewrite <- app_assoc in Hnf.
+      rewrite (p_number_text t _ _ b Ht Hnf).
+      rewrite (skip_hsp_run sp _ _ b Hsp (Hhd _)).
+      rewrite (static_roundtrip un fuel _ _ b Hun Hst (name_followb_hsp_then w1 125 _ Hw1 eq_refl eq_refl eq_refl) ltac:(generalize dependent (name_cost un); intros; lia)).
       rewrite (skip_hsp_run w1 (125 :: _) _ b Hw1 eq_refl), eat_hit. cbn [rest].
-      rewrite (oprep_roundtrip p w c r Hok Hw Hc). unfold adv_pair, adv. cbn [fst snd off bad].
+      rewrite (oprep_roundtrip p w c r Hok Hw Hc (fun Hne => Hbnd ltac:(destruct p; [reflexivity | contradiction]))). unfold adv_pair, adv. cbn [fst snd off bad].
       f_equal. f_equal. repeat (rewrite len_app || rewrite len_cons || rewrite len_nil). lia.
-    + (norm_app; cbn [app]).
-      rewrite (p_number_text t _ _ b Ht (num_follow_hsp_then t w1 125 _ Hw1 eq_refl eq_refl ltac:(discriminate) ltac:(discriminate))).
+    + (norm_app; cbn [app]). cbn [app] in Hnf.
+      rewrite (p_number_text t _ _ b Ht Hnf).
       rewrite (skip_hsp_run w1 (125 :: _) _ b Hw1 eq_refl).
       rewrite (p_static_fails_at 125 _ fuel _ b eq_refl) by lia.
       rewrite (skip_hsp_run w1 (125 :: _) _ b Hw1 eq_refl), eat_hit. cbn [rest].
-      rewrite (oprep_roundtrip p w c r Hok Hw Hc). unfold adv_pair, adv. cbn [fst snd off bad].
+      rewrite (oprep_roundtrip p w c r Hok Hw Hc (fun Hne => Hbnd ltac:(destruct p; [reflexivity | contradiction]))). unfold adv_pair, adv. cbn [fst snd off bad].
       f_equal. f_equal. repeat (rewrite len_app || rewrite len_cons || rewrite len_nil). lia.
 Qed.
